@@ -152,6 +152,27 @@ enum EmptyForms {
     T(),
     S {},
 }
+// serde attributes that change what Serialize writes; derive(Schema) does not read them (known finding C14-derive-ignores-serde-attrs)
+#[derive(Serialize, Schema)]
+struct SerdeRenamed {
+    #[serde(rename = "kind")]
+    ty: u8,
+    other: u8,
+}
+#[derive(Serialize, Schema)]
+struct SerdeSkipped {
+    a: u8,
+    #[serde(skip)]
+    #[allow(dead_code)]
+    b: u16,
+    c: bool,
+}
+#[derive(Serialize, Schema)]
+#[serde(rename_all = "snake_case")]
+enum SerdeRenameAll {
+    FirstThing,
+    SecondThing(u8),
+}
 
 pub fn run(a: &Args) {
     let seed = a.num("seed", 1);
@@ -291,6 +312,10 @@ pub fn run(a: &Args) {
         emit(o, "RawVariants::match", &RawVariants::r#match);
         emit(o, "RawVariants::Other", &RawVariants::Other { r#loop: r.gen() });
         emit(o, "RawVariants::box", &RawVariants::r#box(r.gen()));
+        emit(o, "serde-attr/rename", &SerdeRenamed { ty: r.gen(), other: 1 });
+        emit(o, "serde-attr/skip", &SerdeSkipped { a: r.gen(), b: 0x1234, c: true });
+        emit(o, "serde-attr/rename_all", &SerdeRenameAll::FirstThing);
+        emit(o, "serde-attr/rename_all", &SerdeRenameAll::SecondThing(r.gen()));
         emit(o, "EmptyForms::U", &EmptyForms::U);
         emit(o, "EmptyForms::T", &EmptyForms::T());
         emit(o, "EmptyForms::S", &EmptyForms::S {});
